@@ -443,6 +443,8 @@ pub enum Op {
     PathChanged(usize),
     LocalAddrChanged(usize),
     Close(usize, u32),
+    /// close with a reason phrase of this many bytes (longer than any packet: it must be truncated)
+    CloseLong(usize, u32, usize),
     LinkMtu(usize),
     Blackhole(usize),
     /// Rewrite the source address of everything the node emits from now on
@@ -537,7 +539,7 @@ pub fn apply_op(p: &mut StdPair, op: &Op) {
     let node = match op {
         Op::KeyUpdate(n) | Op::Ping(n) | Op::SetRecvWindow(n, _) | Op::SetSendWindow(n, _)
         | Op::SetMaxStreams(n, _, _) | Op::PathChanged(n) | Op::LocalAddrChanged(n)
-        | Op::Close(n, _) | Op::SpuriousTimeout(n) | Op::SpuriousPollTransmit(n) | Op::SpuriousSettle(n) => *n,
+        | Op::Close(n, _) | Op::CloseLong(n, _, _) | Op::SpuriousTimeout(n) | Op::SpuriousPollTransmit(n) | Op::SpuriousSettle(n) => *n,
         _ => unreachable!(),
     };
     let Some(ch) = node_conn(p, node) else { return };
@@ -552,6 +554,7 @@ pub fn apply_op(p: &mut StdPair, op: &Op) {
             Op::PathChanged(_) => conn.path_changed(now),
             Op::LocalAddrChanged(_) => conn.local_address_changed(),
             Op::Close(_, code) => conn.close(now, VarInt::from_u32(*code), bytes::Bytes::from_static(b"bye")),
+            Op::CloseLong(_, code, len) => conn.close(now, VarInt::from_u32(*code), bytes::Bytes::from(vec![b'r'; *len])),
             Op::SpuriousTimeout(_) => conn.handle_timeout(now),
             Op::SpuriousPollTransmit(_) | Op::SpuriousSettle(_) => {
                 let _ = conn.poll_timeout();
